@@ -100,6 +100,9 @@ def _key_grammar(ctx, fi, pat, legal, sort_defs):
         ctx.check(not missing, 'TBL', 'every documented key is accepted',
                   detail_bad=f"documented keys {sorted(missing)} are rejected", key=f"TBL|_sort_custom|accepted-missing|{','.join(sorted(missing))}")
         nodef = accepted - set(sort_defs)
+        if not all(isinstance(k_, str) for k_ in sort_defs):
+            ctx.undecided('TBL', 'every accepted key has a sort definition', 'sort_defs is not keyed by "<var>.<method>" strings')
+            nodef = set()
         ctx.check(not nodef, 'TBL', 'every accepted key has a sort definition',
                   detail_bad=f"accepted keys {sorted(nodef)} have no entry in sort_defs (KeyError)",
                   key=f"TBL|_sort_custom|nodef|{','.join(sorted(nodef))}")
